@@ -2,6 +2,8 @@ import Frp.Lemmas.ProxyMsg
 import Frp.Model.Validate
 import Frp.Lemmas.ConfStr
 import Frp.Lemmas.ConfNum
+import Frp.Model.Flags
+import Frp.Lemmas.TypedConf
 /-
   C18 — A proxy definition means the same in every format and on both ends.
 
@@ -575,6 +577,625 @@ example : parseRanges (Str.ofString "1000-2000,3000, 4000-5000") =
 example : parseRangeNumbers (Str.ofString "6000-6002,7000") = some [6000, 6001, 6002, 7000] := by decide +kernel
 example : parseBW (Str.ofString " 1.5MB ") = .ok (Str.ofString "1.5MB") 1572864 := by decide +kernel
 example : parseNumberRangePair (Str.ofString "1-2") (Str.ofString "8,9") = some [(1, 8), (2, 9)] := by decide +kernel
+
+
+/-! ## D. command-line flags: the documented names are bound to the fields the other paths set
+
+  The registrations are regenerated from pkg/config/flags.go on every run (`Frp/Gen/Flags.lean`);
+  the expectation below is hand-written from `frpc <type> --help`, `frps --help` and the README. -/
+section FlagsPart
+open Gen.Flags Flags
+
+/-- a documented flag -/
+def mk (name short target : String) (k : Kind) (dflt : String) (ssh persistent : Bool) : Reg :=
+  ⟨Str.ofString name, Str.ofString short, Str.ofString target, k, Str.ofString dflt, ssh, persistent⟩
+
+def expProxyBase : List Reg := [
+  mk "proxy_name" "n" "Name" .str "" true false,
+  mk "metadatas" "" "Metadatas" .strMap "" true false,
+  mk "annotations" "" "Annotations" .strMap "" true false,
+  mk "local_ip" "i" "LocalIP" .str "127.0.0.1" false false,
+  mk "local_port" "l" "LocalPort" .int "0" false false,
+  mk "ue" "" "Transport.UseEncryption" .bool "false" false false,
+  mk "uc" "" "Transport.UseCompression" .bool "false" false false,
+  mk "bandwidth_limit_mode" "" "Transport.BandwidthLimitMode" .str "client" false false,
+  mk "bandwidth_limit" "" "Transport.BandwidthLimit" .bandwidth "" false false ]
+
+def expDomain : List Reg := [
+  mk "custom_domain" "d" "CustomDomains" .strSlice "" true false,
+  mk "sd" "" "SubDomain" .str "" true false ]
+
+def expRemotePort : List Reg := [ mk "remote_port" "r" "RemotePort" .int "0" true false ]
+def expSecret : List Reg := [
+  mk "sk" "" "Secretkey" .str "" true false,
+  mk "allow_users" "" "AllowUsers" .strSlice "" true false ]
+
+def expProxyTyped : PT → List Reg
+  | .tcp => expRemotePort
+  | .udp => expRemotePort
+  | .http => expDomain ++ [
+      mk "locations" "" "Locations" .strSlice "" true false,
+      mk "http_user" "" "HTTPUser" .str "" true false,
+      mk "http_pwd" "" "HTTPPassword" .str "" true false,
+      mk "host_header_rewrite" "" "HostHeaderRewrite" .str "" true false ]
+  | .https => expDomain
+  | .tcpmux => expDomain ++ [
+      mk "mux" "" "Multiplexer" .str "" true false,
+      mk "http_user" "" "HTTPUser" .str "" true false,
+      mk "http_pwd" "" "HTTPPassword" .str "" true false ]
+  | .stcp => expSecret
+  | .xtcp => expSecret
+  | .sudp => expSecret
+
+def expProxyRegs (t : PT) : List Reg := expProxyBase ++ expProxyTyped t
+
+def expVisitor : List Reg := [
+  mk "visitor_name" "n" "Name" .str "" true false,
+  mk "ue" "" "Transport.UseEncryption" .bool "false" true false,
+  mk "uc" "" "Transport.UseCompression" .bool "false" true false,
+  mk "sk" "" "SecretKey" .str "" true false,
+  mk "server_name" "" "ServerName" .str "" true false,
+  mk "server-user" "" "ServerUser" .str "" true false,
+  mk "bind_addr" "" "BindAddr" .str "" true false,
+  mk "bind_port" "" "BindPort" .int "0" true false ]
+
+def expClient : List Reg := [
+  mk "server_addr" "s" "ServerAddr" .str "127.0.0.1" false true,
+  mk "server_port" "P" "ServerPort" .int "7000" false true,
+  mk "protocol" "p" "Transport.Protocol" .str "tcp" false true,
+  mk "log_level" "" "Log.Level" .str "info" false true,
+  mk "log_file" "" "Log.To" .str "console" false true,
+  mk "log_max_days" "" "Log.MaxDays" .int64 "3" false true,
+  mk "disable_log_color" "" "Log.DisablePrintColor" .bool "false" false true,
+  mk "tls_server_name" "" "Transport.TLS.ServerName" .str "" false true,
+  mk "dns_server" "" "DNSServer" .str "" false true,
+  mk "tls_enable" "" "Transport.TLS.Enable" .boolPtr "true" false true,
+  mk "user" "u" "User" .str "" true true,
+  mk "token" "t" "Auth.Token" .str "" true true ]
+
+def expServer : List Reg := [
+  mk "bind_addr" "" "BindAddr" .str "0.0.0.0" true true,
+  mk "bind_port" "p" "BindPort" .int "7000" true true,
+  mk "kcp_bind_port" "" "KCPBindPort" .int "0" true true,
+  mk "quic_bind_port" "" "QUICBindPort" .int "0" true true,
+  mk "proxy_bind_addr" "" "ProxyBindAddr" .str "0.0.0.0" true true,
+  mk "vhost_http_port" "" "VhostHTTPPort" .int "0" true true,
+  mk "vhost_https_port" "" "VhostHTTPSPort" .int "0" true true,
+  mk "vhost_http_timeout" "" "VhostHTTPTimeout" .int64 "60" true true,
+  mk "dashboard_addr" "" "WebServer.Addr" .str "0.0.0.0" true true,
+  mk "dashboard_port" "" "WebServer.Port" .int "0" true true,
+  mk "dashboard_user" "" "WebServer.User" .str "admin" true true,
+  mk "dashboard_pwd" "" "WebServer.Password" .str "admin" true true,
+  mk "enable_prometheus" "" "EnablePrometheus" .bool "false" true true,
+  mk "log_file" "" "Log.To" .str "console" true true,
+  mk "log_level" "" "Log.Level" .str "info" true true,
+  mk "log_max_days" "" "Log.MaxDays" .int64 "3" true true,
+  mk "disable_log_color" "" "Log.DisablePrintColor" .bool "false" true true,
+  mk "token" "t" "Auth.Token" .str "" true true,
+  mk "subdomain_host" "" "SubDomainHost" .str "" true true,
+  mk "allow_ports" "" "AllowPorts" .portsRange "" true true,
+  mk "max_ports_per_client" "" "MaxPortsPerClient" .int64 "0" true true,
+  mk "tls_only" "" "Transport.TLS.Force" .bool "false" true true,
+  mk "dashboard_tls_cert_file" "" "local:webServerTLS.CertFile" .str "" true true,
+  mk "dashboard_tls_key_file" "" "local:webServerTLS.KeyFile" .str "" true true,
+  mk "dashboard_tls_mode" "" "WebServer.TLS" .boolFunc "local:webServerTLS" true true ]
+
+/-- every documented flag is registered with the documented shorthand, field, kind, default and
+    ssh-mode / persistence attributes (further flags may exist) -/
+theorem flags_documented :
+    (∀ t : PT, ∀ e ∈ expProxyRegs t, e ∈ proxyRegs t) ∧ (∀ e ∈ expVisitor, e ∈ visitorBase) ∧
+    (∀ e ∈ expClient, e ∈ clientCommon) ∧ (∀ e ∈ expServer, e ∈ server) := by
+  refine ⟨?_, by decide +kernel, by decide +kernel, by decide +kernel⟩
+  intro t; cases t <;> decide +kernel
+
+/-- the commands as documented -/
+def expProxyCmd (t : PT) (ssh : Bool) : List Bound := active ssh (bindClient expClient ++ bindPlain (expProxyRegs t))
+def expVisitorCmd : List Bound := bindPlain expVisitor ++ (bindClient expClient).filter (·.reg.persistent)
+def expServerCmd : List Bound := bindPlain expServer
+
+def longNames (bs : List Bound) : List Str := bs.map fun b => normName b.reg.name
+def shortNames (bs : List Bound) : List Str := (bs.map (·.reg.short)).filter (· ≠ [])
+def keysOf (bs : List Bound) : List Str := bs.map (·.key)
+
+/-- on every command: flag names are unique after normalisation, shorthands are unique, and no
+    two flags are bound to one field -/
+def CmdOK (bs : List Bound) : Prop := (longNames bs).Nodup ∧ (shortNames bs).Nodup ∧ (keysOf bs).Nodup
+
+instance (bs : List Bound) : Decidable (CmdOK bs) := by unfold CmdOK; infer_instance
+
+theorem flag_names_unique :
+    (∀ (t : PT) (ssh : Bool), CmdOK (proxyCmd t ssh)) ∧ CmdOK visitorCmd ∧ CmdOK serverCmd := by
+  refine ⟨?_, by decide +kernel, by decide +kernel⟩
+  intro t ssh; cases t <;> cases ssh <;> decide +kernel
+
+/-- looking a documented name (either spelling of the word separator) or shorthand up on the real
+    command yields exactly the documented binding -/
+def lookupsOK (real exp : List Bound) : Bool :=
+  exp.all fun b =>
+    findBound real ⟨.eq, b.reg.name, []⟩ == some b &&
+    findBound real ⟨.eq, normName b.reg.name, []⟩ == some b &&
+    (b.reg.short == [] || findBound real ⟨.shEq, b.reg.short, []⟩ == some b)
+
+theorem flag_lookup_documented :
+    (∀ (t : PT) (ssh : Bool), lookupsOK (proxyCmd t ssh) (expProxyCmd t ssh) = true) ∧
+    lookupsOK visitorCmd expVisitorCmd = true ∧ lookupsOK serverCmd expServerCmd = true := by
+  refine ⟨?_, by decide +kernel, by decide +kernel⟩
+  intro t ssh; cases t <;> cases ssh <;> decide +kernel
+
+/-- hand-written expectation: the flag that configures a field the client sends to the server -/
+def flagOfField : CF → Option String
+  | .cName => some "proxy_name"
+  | .cMetadatas => some "metadatas"
+  | .cAnnotations => some "annotations"
+  | .cTransport_UseEncryption => some "ue"
+  | .cTransport_UseCompression => some "uc"
+  | .cTransport_BandwidthLimit => some "bandwidth_limit"
+  | .cTransport_BandwidthLimitMode => some "bandwidth_limit_mode"
+  | .cRemotePort => some "remote_port"
+  | .cCustomDomains => some "custom_domain"
+  | .cSubDomain => some "sd"
+  | .cLocations => some "locations"
+  | .cHTTPUser => some "http_user"
+  | .cHTTPPassword => some "http_pwd"
+  | .cHostHeaderRewrite => some "host_header_rewrite"
+  | .cMultiplexer => some "mux"
+  | .cSecretkey => some "sk"
+  | .cAllowUsers => some "allow_users"
+  | _ => none      -- Type, LoadBalancer.*, RequestHeaders.Set, ResponseHeaders.Set, RouteByHTTPUser, LocalIP
+
+/-- every field `MarshalToMsg` sends: if it has a documented flag, that flag is registered for the
+    type and bound to this very field; if it has none, no flag writes it -/
+def sentFieldsBound (t : PT) : Bool :=
+  (marshalTable t).all fun e =>
+    match flagOfField e.cfg with
+    | some n => (proxyRegs t).any fun r => r.name == Str.ofString n && r.target == TypedConf.cfKey e.cfg
+    | none => (proxyRegs t).all fun r => r.target != TypedConf.cfKey e.cfg
+
+theorem sent_fields_bound : ∀ t : PT, sentFieldsBound t = true := by
+  intro t; cases t <;> decide +kernel
+
+/-- one `--name=value` on a command whose lookup finds `b`: the bound field, and only it, changes,
+    to what the value syntax of the flag's kind yields -/
+theorem flag_sets_bound_field (bs : List Bound) (p last : Bool) (st : St) (name val : Str) (b : Bound) (v : Value)
+    (hf : findBound bs ⟨.eq, name, val⟩ = some b)
+    (hv : setValue b.reg.kind p (st.cfg.get b.key) (st.changed.contains b.key) val = .ok v) :
+    ∃ st', Flags.step bs p last st ⟨.eq, name, val⟩ = .ok st' ∧ st'.cfg.get b.key = v ∧
+      ∀ k, k ≠ b.key → st'.cfg.get k = st.cfg.get k := by
+  refine ⟨⟨st.cfg.set b.key v, b.key :: st.changed⟩, ?_, ?_, ?_⟩
+  · simp only [Flags.step, hf, hv]
+  · simp [Rec.get_set]
+  · intro k hk; simp [Rec.get_set, hk]
+
+/-- flag defaults against what `Complete` gives an absent key of a configuration file
+    (pkg/config/v1: ClientCommonConfig.Complete, ServerConfig.Complete, LogConfig.Complete,
+    WebServerConfig.Complete, TLSClientConfig.Complete, ProxyBaseConfig.Complete) -/
+def fileDefaults : List (String × Value) := [
+  ("Client.ServerAddr", .str (Str.ofString "0.0.0.0")), ("Client.ServerPort", .int 7000),
+  ("Client.Transport.Protocol", .str (Str.ofString "tcp")), ("Client.Log.Level", .str (Str.ofString "info")),
+  ("Client.Log.To", .str (Str.ofString "console")), ("Client.Log.MaxDays", .int 3),
+  ("Client.Transport.TLS.Enable", .bool true),
+  ("LocalIP", .str localhostB), ("Transport.BandwidthLimitMode", .str clientB),
+  ("Server.BindAddr", .str (Str.ofString "0.0.0.0")), ("Server.BindPort", .int 7000),
+  ("Server.ProxyBindAddr", .str (Str.ofString "0.0.0.0")),        -- = BindAddr
+  ("Server.VhostHTTPTimeout", .int 60), ("Server.WebServer.Addr", .str (Str.ofString "127.0.0.1")),
+  ("Server.Log.Level", .str (Str.ofString "info")), ("Server.Log.To", .str (Str.ofString "console")),
+  ("Server.Log.MaxDays", .int 3) ]
+
+def fileDefault (k : Str) : Value :=
+  match fileDefaults.find? (fun e => Str.ofString e.1 = k) with
+  | some e => e.2
+  | none => .zero
+
+/-- nil and empty collections are one value -/
+def canonE (v : Value) : Value :=
+  match v.canon with
+  | .strs [] => .zero
+  | .smap [] => .zero
+  | w => w
+
+/-- the flags whose default differs from the file default of the field they are bound to -/
+def defaultMismatches (pfx : String) (rs : List Reg) : List Str :=
+  (rs.filter fun r => canonE (defaultValue r.kind r.dflt) != canonE (fileDefault (Str.ofString pfx ++ r.target))).map (·.name)
+
+/-- **defaults are applied identically** holds for every flag except four (recorded findings
+    C18-flag-default-*): `server_addr` (127.0.0.1 on the command line, 0.0.0.0 in a file),
+    `dashboard_addr` (0.0.0.0 / 127.0.0.1), `dashboard_user` and `dashboard_pwd` (admin / empty) -/
+theorem flag_default_mismatches :
+    defaultMismatches "Client." clientCommon = [Str.ofString "server_addr"] ∧
+    defaultMismatches "Server." server = [Str.ofString "dashboard_addr", Str.ofString "dashboard_user", Str.ofString "dashboard_pwd"] ∧
+    (∀ t : PT, defaultMismatches "" (proxyRegs t) = []) ∧ defaultMismatches "" visitorBase = [] := by
+  refine ⟨by decide +kernel, by decide +kernel, ?_, by decide +kernel⟩
+  intro t; cases t <;> decide +kernel
+
+def argEq (name val : String) : Arg := ⟨.eq, Str.ofString name, Str.ofString val⟩
+def tlsArgs : List Arg := [argEq "dashboard_tls_mode" "true", argEq "dashboard_tls_cert_file" "c.pem"]
+def certKey : Str := Str.ofString "WebServer.TLS.CertFile"
+
+def readAfter (bs : List Bound) (parsesArg : Bool) (args : List Arg) (k : Str) : Option Value :=
+  match run bs parsesArg args with
+  | .ok r => some (readKey bs r k)
+  | _ => none
+
+/-- the flag that never takes effect (recorded finding C18-dashboard-tls-mode-flag): as the code
+    stands `--dashboard_tls_mode=true --dashboard_tls_cert_file=c.pem` leaves WebServer.TLS nil;
+    a Set that parsed its argument would publish the certificate file -/
+theorem dashboard_tls_flag_witness :
+    boolFuncIgnoresArg = true ∧
+    readAfter serverCmd (!boolFuncIgnoresArg) tlsArgs certKey = some .zero ∧
+    readAfter serverCmd true tlsArgs certKey = some (.str (Str.ofString "c.pem")) := by decide +kernel
+
+/-- predicate for the driver: the implementation's structs after parsing agree, on every listed field,
+    with the documented binding (`exp` = the run over the documented table) -/
+def flHoldsOn (exp : Res) (bs : List Bound) (keys : List Str) (impl : Option (Rec Str)) : Option Bool :=
+  match exp, impl with
+  | .ok r, some i => some (keys.all fun k => canonE (i.get k) == canonE (readKey bs r k))
+  | .ok _, none => some false
+  | .err, some _ => some false
+  | .err, none => some true
+  | .unsupported _, _ => none
+
+theorem flHoldsOn_sound (r : Rec Str) (bs : List Bound) (keys : List Str) (i : Rec Str) :
+    flHoldsOn (.ok r) bs keys (some i) = some true ↔ ∀ k ∈ keys, canonE (i.get k) = canonE (readKey bs r k) := by
+  simp [flHoldsOn]
+
+end FlagsPart
+
+/-! ## E. typed (un)marshallers and the defaults of visitor / proxy definitions
+
+  `Frp/Gen/TypedConf.lean` is regenerated from pkg/config/v1/visitor.go and proxy.go. -/
+section TypedPart
+open Gen.TypedConf TypedConf
+
+/-- both `UnmarshalJSON` have the expected statement sequence: null is an error, the discriminator
+    is read from the key "type" and stored, the configurer is created by type, unknown types are an
+    error, the decoder honours the strict switch, the decoded configurer is stored; `MarshalJSON`
+    marshals the configurer -/
+def expUnmarshal : List UStep :=
+  [.nullIsError, .declTypeStruct, .peekType, .storeType, .newByType, .unknownTypeErr, .newDecoder,
+   .strictSwitch, .decode, .storeConfigurer, .ret]
+
+theorem typed_unmarshal_shape :
+    proxyUnmarshalJSON = expUnmarshal ∧ visitorUnmarshalJSON = expUnmarshal ∧
+    proxyMarshalsConfigurer = true ∧ visitorMarshalsConfigurer = true ∧ newVisitorByTypeSetsType = true := by decide
+
+theorem visitor_types_exact : VT.all.map VT.bytes = [[115, 116, 99, 112], [120, 116, 99, 112], [115, 117, 100, 112]] := by
+  decide
+
+def kName : Str := [78, 97, 109, 101]
+def kBindAddr : Str := [66, 105, 110, 100, 65, 100, 100, 114]
+def kServerName : Str := [83, 101, 114, 118, 101, 114, 78, 97, 109, 101]
+def kServerUser : Str := [83, 101, 114, 118, 101, 114, 85, 115, 101, 114]
+def kProtocol : Str := [80, 114, 111, 116, 111, 99, 111, 108]
+def kMaxRetriesAnHour : Str := [77, 97, 120, 82, 101, 116, 114, 105, 101, 115, 65, 110, 72, 111, 117, 114]
+def kMinRetryInterval : Str := [77, 105, 110, 82, 101, 116, 114, 121, 73, 110, 116, 101, 114, 118, 97, 108]
+def kFallbackTimeoutMs : Str := [70, 97, 108, 108, 98, 97, 99, 107, 84, 105, 109, 101, 111, 117, 116, 77, 115]
+def kFallbackTo : Str := [70, 97, 108, 108, 98, 97, 99, 107, 84, 111]
+def kLocalIP : Str := [76, 111, 99, 97, 108, 73, 80]
+def kBwMode : Str := [84, 114, 97, 110, 115, 112, 111, 114, 116, 46, 66, 97, 110, 100, 119, 105, 100, 116, 104, 76, 105, 109, 105, 116, 77, 111, 100, 101]
+def quicB : Str := [113, 117, 105, 99]
+
+/-- hand-written expectation: the documented defaults of a visitor definition -/
+def expVisitorSteps : VT → List VStep
+  | .xtcp => [.emptyOrStr kBindAddr localhostB, .userPrefix kName, .qualify kServerName kServerUser,
+      .emptyOrStr kProtocol quicB, .emptyOrInt kMaxRetriesAnHour 8, .emptyOrInt kMinRetryInterval 90,
+      .emptyOrInt kFallbackTimeoutMs 1000, .userPrefixIfSet kFallbackTo]
+  | _ => [.emptyOrStr kBindAddr localhostB, .userPrefix kName, .qualify kServerName kServerUser]
+
+theorem visitor_steps_expected : ∀ t : VT, visitorSteps t = expVisitorSteps t := by
+  intro t; cases t <;> decide
+
+theorem visitor_steps_indep : ∀ t : VT, Indep (expVisitorSteps t) := by
+  intro t; cases t <;> decide
+
+/-- **Defaults of a visitor definition, closed form.**  Whatever path produced the record `c`,
+    after `Complete` every field holds what its own documented rule computes from `c`:
+    BindAddr defaults to 127.0.0.1, Name gets the user prefix, ServerName is qualified by ServerUser
+    or else gets the user prefix, and for xtcp Protocol = quic, MaxRetriesAnHour = 8,
+    MinRetryInterval = 90, FallbackTimeoutMs = 1000, a set FallbackTo gets the user prefix;
+    every other field is unchanged. -/
+theorem visitor_complete_closed (t : VT) (user : Str) (c : Rec Str) (k : Str) :
+    (visitorComplete t user c).get k = closedForm user (expVisitorSteps t) c k := by
+  rw [visitorComplete, visitor_steps_expected]
+  exact runSteps_closed user _ c k (visitor_steps_indep t)
+
+theorem visitor_name (t : VT) (user : Str) (c : Rec Str) :
+    (visitorComplete t user c).get kName = .str (namePrefix user ++ asStr (c.get kName)) := by
+  rw [visitor_complete_closed]; cases t <;> rfl
+
+theorem visitor_bind_addr (t : VT) (user : Str) (c : Rec Str) :
+    (visitorComplete t user c).get kBindAddr =
+      if asStr (c.get kBindAddr) = [] then .str localhostB else c.get kBindAddr := by
+  rw [visitor_complete_closed]
+  cases t <;> simp [closedForm, expVisitorSteps, TypedConf.target, newVal, kBindAddr] <;> split <;> simp_all
+
+theorem visitor_server_name (t : VT) (user : Str) (c : Rec Str) :
+    (visitorComplete t user c).get kServerName =
+      if asStr (c.get kServerUser) ≠ [] then .str (asStr (c.get kServerUser) ++ Str.dot :: asStr (c.get kServerName))
+      else .str (namePrefix user ++ asStr (c.get kServerName)) := by
+  rw [visitor_complete_closed]
+  cases t <;> simp [closedForm, expVisitorSteps, List.find?, TypedConf.target, newVal, kBindAddr, kName, kServerName] <;>
+    split <;> simp_all
+
+theorem xtcp_visitor_defaults (user : Str) (c : Rec Str) :
+    (asStr (c.get kProtocol) = [] → (visitorComplete .xtcp user c).get kProtocol = .str quicB) ∧
+    (asInt (c.get kMaxRetriesAnHour) = 0 → (visitorComplete .xtcp user c).get kMaxRetriesAnHour = .int 8) ∧
+    (asInt (c.get kMinRetryInterval) = 0 → (visitorComplete .xtcp user c).get kMinRetryInterval = .int 90) ∧
+    (asInt (c.get kFallbackTimeoutMs) = 0 → (visitorComplete .xtcp user c).get kFallbackTimeoutMs = .int 1000) := by
+  refine ⟨?_, ?_, ?_, ?_⟩ <;> intro h <;> rw [visitor_complete_closed] <;>
+    simp only [kProtocol, kMaxRetriesAnHour, kMinRetryInterval, kFallbackTimeoutMs] at h ⊢ <;>
+    simp [closedForm, expVisitorSteps, List.find?, TypedConf.target, newVal, h, kBindAddr, kName, kServerName,
+      kProtocol, kMaxRetriesAnHour, kMinRetryInterval, kFallbackTimeoutMs]
+
+/-- fields no rule mentions are what was loaded -/
+theorem visitor_other_fields (t : VT) (user : Str) (c : Rec Str) (k : Str)
+    (h : ∀ s ∈ expVisitorSteps t, TypedConf.target s ≠ k) : (visitorComplete t user c).get k = c.get k := by
+  rw [visitor_complete_closed]
+  simp only [closedForm]
+  rw [List.find?_eq_none.mpr]
+  intro s hs; simpa using h s hs
+
+/-- what `ProxyBaseConfig.Complete(user)` makes of each field (path-keyed records) -/
+def proxySpec (user : Str) (c : Rec Str) (k : Str) : Value :=
+  if k = kName then (if user = [] then c.get kName else .str (user ++ Str.dot :: asStr (c.get kName)))
+  else if k = kLocalIP then (if asStr (c.get kLocalIP) = [] then .str localhostB else c.get kLocalIP)
+  else if k = kBwMode then (if asStr (c.get kBwMode) = [] then .str clientB else c.get kBwMode)
+  else c.get k
+
+theorem cfKey_localIP : cfKey .cLocalIP = kLocalIP := by decide +kernel
+theorem cfKey_bwMode : cfKey .cTransport_BandwidthLimitMode = kBwMode := by decide +kernel
+
+/-- **Defaults of a proxy definition** (file, flag and in-memory paths all end in this call):
+    the user prefix on Name, LocalIP = 127.0.0.1, BandwidthLimitMode = client, nothing else -/
+theorem proxy_complete_get (user : Str) (c : Rec Str) (k : Str) :
+    (proxyComplete user c).get k = proxySpec user c k := by
+  simp only [proxyComplete, completeSteps, List.foldl, applyPS, cfKey_localIP, cfKey_bwMode, nameKey, proxySpec,
+    localhostB, clientB, kName, kLocalIP, kBwMode]
+  by_cases hu : user = [] <;> by_cases a : asStr (c.get [76, 111, 99, 97, 108, 73, 80]) = [] <;>
+    by_cases b : asStr (c.get [84, 114, 97, 110, 115, 112, 111, 114, 116, 46, 66, 97, 110, 100, 119, 105, 100, 116, 104, 76, 105, 109, 105, 116, 77, 111, 100, 101]) = [] <;>
+    by_cases h1 : k = [78, 97, 109, 101] <;> by_cases h2 : k = [76, 111, 99, 97, 108, 73, 80] <;>
+    by_cases h3 : k = [84, 114, 97, 110, 115, 112, 111, 114, 116, 46, 66, 97, 110, 100, 119, 105, 100, 116, 104, 76, 105, 109, 105, 116, 77, 111, 100, 101] <;>
+    simp_all [Rec.get_set]
+
+/-- predicate for the driver: on every listed field the implementation's completed definition holds
+    what the documented rules compute from the logical definition (`spec`), up to the stated value
+    normalisation of the path -/
+def cfHoldsOn (spec : Str → Value) (nrm : Value → Value) (keys : List Str) (impl : Rec Str) : Bool :=
+  keys.all fun k => nrm (impl.get k).canon == nrm (spec k).canon
+
+theorem cfHoldsOn_sound (spec : Str → Value) (nrm : Value → Value) (keys : List Str) (impl : Rec Str) :
+    cfHoldsOn spec nrm keys impl = true ↔ ∀ k ∈ keys, nrm (impl.get k).canon = nrm (spec k).canon := by
+  simp [cfHoldsOn]
+
+/-- the model's own completion satisfies the predicate -/
+theorem model_cfHoldsOn_visitor (t : VT) (user : Str) (c : Rec Str) (nrm : Value → Value) (keys : List Str) :
+    cfHoldsOn (closedForm user (expVisitorSteps t) c) nrm keys (visitorComplete t user c) = true := by
+  rw [cfHoldsOn_sound]; intro k _; rw [visitor_complete_closed]
+
+theorem model_cfHoldsOn_proxy (user : Str) (c : Rec Str) (nrm : Value → Value) (keys : List Str) :
+    cfHoldsOn (proxySpec user c) nrm keys (proxyComplete user c) = true := by
+  rw [cfHoldsOn_sound]; intro k _; rw [proxy_complete_get]
+
+end TypedPart
+
+/-! ## F. client-side validation: accepted ⇒ documented constraints -/
+section ValidatePart
+
+theorem mem_of_contains {l : List Str} {x : Str} (h : ¬ ((!l.contains x) = true)) : x ∈ l := by
+  by_cases hm : x ∈ l
+  · exact hm
+  · exact absurd (by simp [hm]) h
+
+/-- a proxy definition accepted by `ValidateProxyConfigurerForClient` has a name, an allowed proxy
+    protocol version, bandwidth mode and health check type (with a path for http), a local port in range
+    unless a plugin serves it, a domain for the vhost types, and the one supported multiplexer -/
+theorem client_accept (k : PKind) (c : ProxyView) (h : validateProxyForClient k c = none) :
+    c.name ≠ [] ∧ c.proxyProtocolVersion ∈ [[], sV1, sV2] ∧ c.bandwidthLimitMode ∈ [sClient, sServer] ∧
+    (c.pluginType = [] → 0 ≤ c.localPort ∧ c.localPort ≤ 65535) ∧
+    c.healthCheckType ∈ [[], sTcp, sHttp] ∧ (c.healthCheckType = sHttp → c.healthCheckPath ≠ []) ∧
+    ((k = .http ∨ k = .https ∨ k = .tcpmux) → c.subDomain ≠ [] ∨ c.customDomains ≠ []) ∧
+    (k = .tcpmux → c.multiplexer = sHttpConnect) := by
+  have hb : validateProxyBaseForClient c = none := by
+    simp only [validateProxyForClient] at h
+    cases hb : validateProxyBaseForClient c with
+    | none => rfl
+    | some e => simp [hb] at h
+  have hbase : c.name ≠ [] ∧ c.proxyProtocolVersion ∈ [[], sV1, sV2] ∧ c.bandwidthLimitMode ∈ [sClient, sServer] ∧
+      (c.pluginType = [] → 0 ≤ c.localPort ∧ c.localPort ≤ 65535) ∧
+      c.healthCheckType ∈ [[], sTcp, sHttp] ∧ (c.healthCheckType = sHttp → c.healthCheckPath ≠ []) := by
+    simp only [validateProxyBaseForClient] at hb
+    split at hb; · cases hb
+    split at hb; · cases hb
+    split at hb; · cases hb
+    split at hb; · cases hb
+    split at hb; · cases hb
+    split at hb; · cases hb
+    rename_i h1 h2 h3 h4 h5 h6
+    refine ⟨h1, ?_, ?_, ?_, ?_, ?_⟩
+    · exact mem_of_contains h2
+    · exact mem_of_contains h3
+    · intro hp
+      have : validatePort c.localPort = true := by
+        cases hv : validatePort c.localPort with
+        | true => rfl
+        | false => simp [hp, hv] at h4
+      exact (validatePort_iff _).mp this
+    · exact mem_of_contains h5
+    · intro ht hp; simp [ht, hp] at h6
+  obtain ⟨a1, a2, a3, a4, a5, a6⟩ := hbase
+  have hdom : ∀ c : ProxyView, validateDomainForClient c = none → c.subDomain ≠ [] ∨ c.customDomains ≠ [] := by
+    intro c hd
+    simp only [validateDomainForClient] at hd
+    split at hd
+    · cases hd
+    · rename_i hn
+      by_cases hs : c.subDomain = []
+      · right; intro hc; simp [hs, hc] at hn
+      · left; exact hs
+  refine ⟨a1, a2, a3, a4, a5, a6, ?_, ?_⟩
+  · intro hk
+    simp only [validateProxyForClient, hb] at h
+    rcases hk with hk | hk | hk <;> subst hk <;> simp only at h
+    · exact hdom c h
+    · exact hdom c h
+    · cases hd : validateDomainForClient c with
+      | none => exact hdom c hd
+      | some e => simp [hd] at h
+  · intro hk; subst hk
+    simp only [validateProxyForClient, hb] at h
+    cases hd : validateDomainForClient c with
+    | some e => simp [hd] at h
+    | none =>
+      simp only [hd] at h
+      split at h
+      · cases h
+      · rename_i hm; simpa using hm
+
+/-- an accepted visitor definition has a name, a server name, a bind port, and for xtcp kcp or quic -/
+theorem visitor_accept (x : Bool) (name sname : Str) (port : Int) (proto : Str)
+    (h : validateVisitor x name sname port proto = none) :
+    name ≠ [] ∧ sname ≠ [] ∧ port ≠ 0 ∧ (x = true → proto ∈ [sKcp, sQuic]) := by
+  simp only [validateVisitor] at h
+  split at h; · cases h
+  split at h; · cases h
+  split at h; · cases h
+  split at h; · cases h
+  rename_i h1 h2 h3 h4
+  refine ⟨h1, h2, h3, ?_⟩
+  intro hx; subst hx; exact mem_of_contains (by simpa using h4)
+
+theorem append_nil_iff {α : Type} (a b : List α) : a ++ b = [] ↔ a = [] ∧ b = [] := by
+  cases a <;> simp
+
+/-- a server configuration accepted by `ValidateServerConfig` has every port in range, an allowed
+    auth method and log level, only allowed additional scopes, and a complete dashboard TLS pair -/
+theorem server_accept (c : ServerView) (h : validateServer c = []) :
+    authMethods.contains c.authMethod = true ∧ c.scopes.all (authScopes.contains ·) = true ∧
+    logLevels.contains c.logLevel = true ∧
+    (∀ cert key, c.webTLS = some (cert, key) → cert ≠ [] ∧ key ≠ []) ∧
+    validatePort c.webPort = true ∧ validatePort c.bindPort = true ∧ validatePort c.kcpBindPort = true ∧
+    validatePort c.quicBindPort = true ∧ validatePort c.vhostHTTPPort = true ∧
+    validatePort c.vhostHTTPSPort = true ∧ validatePort c.tcpmuxPort = true := by
+  simp only [validateServer, append_nil_iff] at h
+  obtain ⟨⟨⟨⟨⟨⟨⟨⟨⟨h1, h2⟩, h3⟩, h4⟩, h5⟩, h6⟩, h7⟩, h8⟩, h9⟩, h10⟩ := h
+  have pe : ∀ (p : Int) (i : Nat), portErr p i = [] → validatePort p = true := by
+    intro p i hp; simp only [portErr] at hp; split at hp
+    · assumption
+    · cases hp
+  have hweb : (∀ cert key, c.webTLS = some (cert, key) → cert ≠ [] ∧ key ≠ []) ∧ validatePort c.webPort = true := by
+    simp only [validateWebServer] at h4
+    cases ht : c.webTLS with
+    | none =>
+      simp only [ht] at h4
+      refine ⟨(by intro _ _ hh; cases hh), ?_⟩
+      split at h4
+      · assumption
+      · cases h4
+    | some ck =>
+      obtain ⟨cert, key⟩ := ck
+      simp only [ht] at h4
+      split at h4; · cases h4
+      split at h4; · cases h4
+      rename_i hc hk
+      split at h4
+      · rename_i hp; exact ⟨(by intro a b hh; cases hh; exact ⟨hc, hk⟩), hp⟩
+      · cases h4
+  refine ⟨?_, ?_, ?_, hweb.1, hweb.2, pe _ _ h5, pe _ _ h6, pe _ _ h7, pe _ _ h8, pe _ _ h9, pe _ _ h10⟩
+  · split at h1
+    · assumption
+    · cases h1
+  · split at h2
+    · assumption
+    · cases h2
+  · split at h3
+    · assumption
+    · cases h3
+
+/-- non-vacuity -/
+example : validateProxyForClient .tcpmux ⟨[97], [], sClient, [], 80, [], [], [97], [], sHttpConnect⟩ = none := by decide
+example : validateProxyForClient .http ⟨[97], [], sClient, [], 80, [], [], [], [], []⟩ = some .domains := by decide
+example : validateVisitor true [97] [98] 9000 sQuic = none := by decide
+example : validateServer ⟨[116, 111, 107, 101, 110], [], [105, 110, 102, 111], none, 0, 7000, 0, 0, 80, 443, 0⟩ = [] := by decide
+
+/-- `parseNumberRange` (template function) is `util.ParseRangeNumbers`: see `numbersPiece_span`,
+    `numbersPiece_single`; `BandwidthQuantity.Equal` compares the byte counts -/
+def bwEqual (a b : Str) : Option Bool :=
+  let bytes := fun (r : BW) => match r with | .ok _ n => some n | .empty => some 0 | _ => none
+  match bytes (parseBW a), bytes (parseBW b) with
+  | some x, some y => some (x == y)
+  | _, _ => none
+
+/-- predicates for the driver: what an accepting verdict of the implementation must imply -/
+def clientHoldsOn (k : PKind) (c : ProxyView) (accepted : Bool) : Bool :=
+  !accepted || (c.name != [] && [[], sV1, sV2].contains c.proxyProtocolVersion &&
+    [sClient, sServer].contains c.bandwidthLimitMode && (c.pluginType != [] || validatePort c.localPort) &&
+    [[], sTcp, sHttp].contains c.healthCheckType && !(c.healthCheckType == sHttp && c.healthCheckPath == []) &&
+    (!(k == .http || k == .https || k == .tcpmux) || c.subDomain != [] || c.customDomains != []) &&
+    (k != .tcpmux || c.multiplexer == sHttpConnect))
+
+def visitorHoldsOn (x : Bool) (name sname : Str) (port : Int) (proto : Str) (accepted : Bool) : Bool :=
+  !accepted || (name != [] && sname != [] && port != 0 && (!x || [sKcp, sQuic].contains proto))
+
+def serverHoldsOn (c : ServerView) (accepted : Bool) : Bool :=
+  !accepted || (authMethods.contains c.authMethod && c.scopes.all (authScopes.contains ·) && logLevels.contains c.logLevel &&
+    (match c.webTLS with | some (cert, key) => cert != [] && key != [] | none => true) &&
+    [c.webPort, c.bindPort, c.kcpBindPort, c.quicBindPort, c.vhostHTTPPort, c.vhostHTTPSPort, c.tcpmuxPort].all validatePort)
+
+/-- whatever the model accepts satisfies the predicates (a `prop=FAILS` can only come from the implementation) -/
+theorem model_clientHoldsOn (k : PKind) (c : ProxyView) :
+    clientHoldsOn k c (validateProxyForClient k c == none) = true := by
+  cases h : validateProxyForClient k c with
+  | some e => simp [clientHoldsOn]
+  | none =>
+    obtain ⟨h1, h2, h3, h4, h5, h6, h7, h8⟩ := client_accept k c h
+    have e1 : (c.name != []) = true := by simpa using h1
+    have e2 : [[], sV1, sV2].contains c.proxyProtocolVersion = true := List.contains_iff_mem.mpr h2
+    have e3 : [sClient, sServer].contains c.bandwidthLimitMode = true := List.contains_iff_mem.mpr h3
+    have e4 : (c.pluginType != [] || validatePort c.localPort) = true := by
+      by_cases hp : c.pluginType = []
+      · have := (validatePort_iff _).mpr (h4 hp); simp [this]
+      · simp [hp]
+    have e5 : [[], sTcp, sHttp].contains c.healthCheckType = true := List.contains_iff_mem.mpr h5
+    have e6 : (!(c.healthCheckType == sHttp && c.healthCheckPath == [])) = true := by
+      by_cases ht : c.healthCheckType = sHttp
+      · have := h6 ht; simp [ht, this]
+      · simp [ht]
+    have e7 : (!(k == .http || k == .https || k == .tcpmux) || c.subDomain != [] || c.customDomains != []) = true := by
+      by_cases hk : k = .http ∨ k = .https ∨ k = .tcpmux
+      · rcases h7 hk with hs | hs <;> simp [hs]
+      · have : (k == .http || k == .https || k == .tcpmux) = false := by
+          simp only [not_or] at hk; simp [hk.1, hk.2.1, hk.2.2]
+        simp [this]
+    have e8 : (k != .tcpmux || c.multiplexer == sHttpConnect) = true := by
+      by_cases hk : k = .tcpmux
+      · simp [h8 hk]
+      · simp [hk]
+    simp only [clientHoldsOn, e1, e2, e3, e4, e5, e6, e7, e8]; rfl
+
+theorem model_visitorHoldsOn (x : Bool) (name sname : Str) (port : Int) (proto : Str) :
+    visitorHoldsOn x name sname port proto (validateVisitor x name sname port proto == none) = true := by
+  cases h : validateVisitor x name sname port proto with
+  | some e => simp [visitorHoldsOn]
+  | none =>
+    obtain ⟨h1, h2, h3, h4⟩ := visitor_accept x name sname port proto h
+    have e4 : (!x || [sKcp, sQuic].contains proto) = true := by
+      cases x with
+      | false => rfl
+      | true => simpa using h4 rfl
+    simp only [visitorHoldsOn, e4]; simp [h1, h2, h3]
+
+theorem model_serverHoldsOn (c : ServerView) : serverHoldsOn c (validateServer c == []) = true := by
+  cases h : validateServer c with
+  | cons e es => simp [serverHoldsOn]
+  | nil =>
+    obtain ⟨h1, h2, h3, h4, h5, h6, h7, h8, h9, h10, h11⟩ := server_accept c h
+    have e4 : (match c.webTLS with | some (cert, key) => cert != [] && key != [] | none => true) = true := by
+      cases ht : c.webTLS with
+      | none => rfl
+      | some ck => obtain ⟨cert, key⟩ := ck; have := h4 cert key ht; simp [this.1, this.2]
+    simp only [serverHoldsOn, h1, h2, h3, e4]
+    simp [h5, h6, h7, h8, h9, h10, h11]
+
+end ValidatePart
 
 end C18
 end Frp
